@@ -42,13 +42,14 @@ def failedNamesD (cs : List (String × Bool)) : String :=
 def answerDamage (ws : List String) : Option String :=
   match splitArrow ws with
   | some ([itS, opS], post) =>
-    if itS == "none" || itS == "-" then none else
-    match (itS.splitOn ",").mapM parseItemD with
+    let isImp := opS.startsWith "i"
+    if (itS == "none" || itS == "-") && !isImp then none else
+    match (if itS == "none" || itS == "-" then some [] else (itS.splitOn ",").mapM parseItemD) with
     | none => none
     | some its =>
       let l : List DSnap := its.filterMap id
       let junk := decide (its.length > l.length)
-      if !(l.any (·.bad) || hasDupKey l || opS == "b") then none else
+      if !(l.any (·.bad) || hasDupKey l || opS == "b" || isImp) then none else
       if opS == "b" then
         -- C14 snaps <items> b => pre=<f> meta=<t.i> start=<f> : the real peer started on the folder
         match fieldD "pre" post, fieldD "meta" post, fieldD "start" post with
@@ -73,7 +74,8 @@ def answerDamage (ws : List String) : Option String :=
       else
       let parsed := do
         let op : DOp ← (if opS == "o" then some .read else if opS == "c" then some .clean
-                        else if opS.startsWith "s" then (opS.drop 1).toNat?.map .save else none)
+                        else if opS.startsWith "s" then (opS.drop 1).toNat?.map .save
+                        else if isImp then (opS.drop 1).toNat?.map .imp else none)
         let pre ← fieldD "pre" post
         let metaS ← fieldD "meta" post
         let off ← fieldD "off" post
@@ -86,19 +88,21 @@ def answerDamage (ws : List String) : Option String :=
       match parsed with
       | none => some "bad-case snaps-parse"
       | some (op, pre, metaS, off, nmeta, cnt, old0, old0cnt, err) =>
-        let f : DFolder := some l
+        let f : DFolder := if itS == "none" then none else some l
         let newestBad := match newestD l with | some m => m.bad | none => false
-        let arm := "snaps-" ++ (match op with | .read => "read" | .clean => "clean" | .save _ => "save" | .boot => "boot") ++
+        let arm := "snaps-" ++ (match op with | .read => "read" | .clean => "clean" | .save _ => "save" | .boot => "boot" | .imp _ => "import") ++
+          (if itS == "none" then "-nofolder" else if l.isEmpty then "-nosnap" else "") ++
           (if newestBad then "-damaged-newest" else if l.any (·.bad) then "-damaged-older" else "") ++
           (if hasDupKey l then "-tie" else "") ++ (if junk then "-leftovers" else "")
         match parseSReadD pre, parseSReadD off, parseSReadD old0 with
         | some rp, some ro, some rb =>
           let obs : DObs := { pre := rp, off := ro, old0 := rb, cnt := cnt, old0cnt := old0cnt, failed := err != "0" }
-          let cs := damageClauses false (l.map (fun x => (x.s.term, x.s.index, x.s.pin, x.bad))) op obs
+          let cs := damageClauses (itS == "none") (l.map (fun x => (x.s.term, x.s.index, x.s.pin, x.bad))) op obs
           if !cs.all (·.2) then some ("propfail " ++ failedNamesD cs ++ " arm=" ++ arm) else
           let after : After := match op with
             | .read => ⟨f, none, false⟩
             | .boot => ⟨f, none, false⟩
+            | .imp c => importD f c
             | .clean => cleanupD f
             | .save c => saveD f c
           let checks : List (String × Bool) :=
